@@ -157,15 +157,20 @@ class C15(Check):
             # node templates derived via base: (with dict-form operators = per-node variations) and circuits whose nodes
             # come from another file (fully qualified) next to local ones with the same template name
             g = lambda lo=1, hi=48: rng.randint(lo, hi) / 16
-            return {'mode': 'nodes', 'kind': rng.choice(['derive', 'derive+override', 'multifile', 'multifile']),
+            return {'mode': 'nodes', 'kind': rng.choice(['derive', 'derive+override', 'multifile', 'multifile', 'two-ops', 'two-ops']),
                     'vals': {'aS': g(), 'aM': g(), 'xS': g(-32, 32), 'xM': g(-32, 32), 'vA': g(), 'vB': g(), 'w': g(-32, 32) or 0.5,
                              'external_first': rng.random() < 0.7}}
         dl = (lambda r: ({'delay': r.choice([0.004, 0.02]), 'spread': r.choice([None, 0.002])} if r.random() < 0.3 else {}))
         if stratum == 'S-overrides':
             spec = models.gen_aliased(rng, build=rng.choice(['python', 'yaml']))
         else:
-            spec = models.gen_net(rng, n_nodes=rng.randint(1, 5), per_node_ops=True, hier=(stratum == 'S-hier') or rng.random() < 0.2,
-                                  delays=dl, build=rng.choice(['python', 'yaml']), libs=('lin', 'sat', 'osc', 'leak'))
+            # per_node_ops: every node has operators of its own (no overrides) - or, in a third of the models, shared operators
+            # with per-node overrides in dict form; 40 % of the models have multi-operator nodes, some of whose second
+            # operators carry NO override (an empty entry next to a non-empty one)
+            spec = models.gen_net(rng, n_nodes=rng.randint(1, 5), per_node_ops=rng.random() < 0.65,
+                                  hier=(stratum == 'S-hier') or rng.random() < 0.2,
+                                  delays=dl, build=rng.choice(['python', 'yaml']), libs=('lin', 'sat', 'osc', 'leak'),
+                                  readouts=(0.5, 0.4) if rng.random() < 0.4 else None, bare=0.3)
             for e in _all_edges(spec):
                 e[2] = {k: v for k, v in e[2].items() if v is not None}
             if rng.random() < 0.4:
@@ -283,7 +288,25 @@ class C15(Check):
             def op_yaml(name, a, x):
                 return [f'{name}:', '  base: OperatorTemplate', '  equations:', '    - "x\' = -a*x + u"', '  variables:',
                         f'    x: output({x})', f'    a: {float(a)!r}', '    u: input(0.0)', '']
-            if kind.startswith('derive'):
+            if kind == 'two-ops':
+                # a multi-operator node in dict form: the first operator carries overrides, the second an EMPTY entry; both
+                # own a variable `a` (and the second reads the first's x).  Expectation: the overrides written into the
+                # first operator's own defaults, no per-node variations at all
+                L = ['%YAML 1.2', '---', ''] + op_yaml('opM', v['aM'], v['xM'])
+                L += ['opR:', '  base: OperatorTemplate', '  equations:', '    - "r\' = -a*r + x"', '  variables:',
+                      f"    r: output({v['xS']})", f"    a: {float(v['aS'])!r}", '    x: input(0.0)', '']
+                empty = '{}' if v['external_first'] else ''
+                L += ['pnode:', '  base: NodeTemplate', '  operators:', '    opM:', f"      a: {float(v['vA'])!r}",
+                      f"      x: {float(v['vB'])!r}", f'    opR: {empty}'.rstrip(), '',
+                      'circ:', '  base: CircuitTemplate', '  nodes:', '    p: pnode', '  edges:',
+                      f"    - [p/opR/r, p/opM/u, null, {{weight: {float(v['w'])!r}}}]", '']
+                with open('lib/mainf.yaml', 'w') as f:
+                    f.write('\n'.join(L))
+                exp = {'ops': {'opM': lin(v['vA'], v['vB']),
+                               'opR': {'eqs': ["r' = -a*r + x"], 'vars': {'r': f"output({v['xS']})", 'a': float(v['aS']), 'x': 'input(0.0)'}}},
+                       'nodes': {'p': {'name': 'pnode', 'operators': [['opM', {}], ['opR', {}]]}},
+                       'edges': [['p/opR/r', 'p/opM/u', {'weight': v['w']}]]}
+            elif kind.startswith('derive'):
                 L = ['%YAML 1.2', '---', ''] + op_yaml('opM', v['aM'], v['xM'])
                 L += ['base_node:', '  base: NodeTemplate', '  operators:', '    opM:', f"      a: {float(v['vA'])!r}", '']
                 L += ['der_node:', '  base: base_node']
@@ -329,7 +352,7 @@ class C15(Check):
                 return res
             d = observe.diff(got, want, rtol=1e-12)
             if d:
-                V('L-inherit-node' if kind.startswith('derive') else 'L-multifile',
+                V('L-inherit-node' if kind.startswith('derive') else ('L-multifile' if kind == 'multifile' else 'L-node-dict-form'),
                   'loud' if got['scalar'].get('status') != 'ok' else 'silent', kind,
                   f'YAML model ({kind}, values {json.dumps(v)}) differs from the explicitly written one: {d[:300]}'
                   + (f' [{got["scalar"].get("exc")}: {got["scalar"].get("msg")}]' if got['scalar'].get('status') != 'ok' else ''))
@@ -361,6 +384,16 @@ class C15(Check):
             if d:
                 V('L-dual', 'silent', 'python-vs-yaml', f'YAML-built model differs from the Python-built one: {d[:300]}')
                 return res
+            if prec == 'float64' and not any(e[2].get('delay') or e[2].get('spread') for e in _all_edges(spec)):
+                # both frontends agree - and both mean what is written: every declared value and override, the vector field
+                # at probe states and a short vectorized run against the reference semantics of the spec
+                import numpy as np
+                from checks.c07 import C07
+                v = C07._judge('model as defined (both frontends)', models.RefNet(copy.deepcopy(spec)), a, np)
+                if v:
+                    V('L-dual', v['cls'], 'definition-' + v['key'], v['detail'])
+                    return res
+                bump('dual_vs_reference')
             res['nontrivial'] = True
             return res
 
@@ -569,6 +602,15 @@ class C15(Check):
         if base['scalar'].get('status') != 'ok':
             res['discard'] = f"model refused: {base['scalar'].get('exc')}: {str(base['scalar'].get('msg'))[:60]}"
             return res
+        if not any(e[2].get('delay') or e[2].get('spread') for e in _all_edges(spec)):
+            # the model that is stored means what its definition says (reference semantics of the spec)
+            import numpy as np
+            from checks.c07 import C07
+            v = C07._judge('model as defined', models.RefNet(copy.deepcopy(spec)), base, np)
+            if v:
+                V('L-define', v['cls'], 'definition-' + v['key'], v['detail'])
+                return res
+            bump('definition_vs_reference')
         for g, s in zip(jobs, snaps[1:]):
             d = observe.diff(s, base, rtol=1e-12)
             if d and isinstance(g, tuple) and g[0] == 'torn':
